@@ -11,6 +11,22 @@ var ruleTable = []RuleDef{
 	{"R-INSERT-GUARD", (*Model).ruleINSERTGUARD, "every INSERT .. ON CONFLICT DO UPDATE on documents (except the upsert primitive) restricts the update, as a top-level conjunct, to rows without a body; conditional statements consult RowsAffected; Add/AddRaw reach only guarded inserts"},
 	{"R-PURGE", (*Model).rulePURGE, "DELETE FROM documents has exactly a no-body test as its predicate"},
 	{"R-XATTR-CARRY", (*Model).ruleXATTRCARRY, "a body-assigning update leaves xattrs only on live rows, or assigns xattrs itself / iif(<old row has no body>, NULL, xattrs) / NULL under a no-body guard / a bound value"},
+	{"R-DSN", (*Model).ruleDSN, "the connection string sets _journal_mode=WAL, _txlock=immediate, _foreign_keys=1 and a non-zero _busy_timeout on every path to sql.Open, and does not weaken synchronous mode"},
+	{"R-BACKFILL", (*Model).ruleBACKFILL, "the backfill statement selects from documents exactly the receiver's rows with cas >= start, ordered by cas, and its Scan fills every field of the event from the column that mirrors it (value/xattrs may be NULL in the keys-only variant); no event field is overridden in Go"},
+	{"R-EXP-SQL", (*Model).ruleEXPSQL, "the expiry scan selects exactly the receiver's rows with 0 < exp <= now; the next-deadline query is min(exp) over exactly the rows with exp > 0"},
+	{"R-LIVE", (*Model).ruleLIVE, "read-only statements decide liveness from the body column (as the key-value reads do), never from the tombstone flag"},
+	{"R-HLC-MARK-SQL", (*Model).ruleHLCMARKSQL, "the mark helper sets bucket.lastCas and collections.lastCas (WHERE id = receiver id) to its CAS argument, through the transaction handle"},
+	{"R-HLC", (*Model).ruleHLC, "the CAS clock is one package-level object assigned only during initialisation; its Now is called only inside closures handed to the transaction runner; the allocator persists, in the same closure and after the write, the very CAS it handed out, and every success return returns the mark helper's result; the open function raises the clock to the persisted bucket.lastCas before the bucket is registered"},
+	{"R-MONO", (*Model).ruleMONO, "every store to the clock's high-water field is old+1, or a value stored only on the branch where it compares strictly above the old value (not below, for the seeding function), under the clock's mutex"},
+	{"R-EVT-1", (*Model).ruleEVT1, "the post function is never reachable from code running inside a transaction; each call of it is reachable only through the edges where the transaction's error is nil and the event is non-nil, once"},
+	{"R-EVT-FEEDEVENT", (*Model).ruleEVT45, "mutation/deletion FeedEvents are built only by the single converter; the fan-out never stores through the shared event pointer and gives keys-only feeds a private copy with Value cleared"},
+	{"R-QUEUE", (*Model).ruleQUEUE, "the feed queue is FIFO (push and pull use opposite list ends), close broadcasts, push signals, pull re-tests in a loop around Wait, all under the queue lock"},
+	{"R-ONE-TXN", (*Model).ruleONETXN, "a function that runs a transaction runs exactly one per call (not in a loop, not twice on a path) and calls nothing else that runs a transaction"},
+	{"R-TXN-READS", (*Model).ruleTXNREADS, "nothing that executes inside a transaction closure obtains the connection pool, starts a transaction, locks the bucket mutex or touches the raw DB handle"},
+	{"R-SHARED-COPY", (*Model).ruleSHAREDCOPY, "the handle-copy function shares mutex, DB handle, feed registry and expiry manager with its receiver, and gives the copy its own collections map and an open state"},
+	{"R-CLOSED", (*Model).ruleCLOSED, "the raw DB handle is used only by pool accessors, the transaction runner, the shutdown routine and constructors, and in accessors/runner only behind the closed-flag test"},
+	{"R-MACRO-ORDER", (*Model).ruleMACRO, "event fields read by macro expansion (cas, value) are not assigned again after the expansion call"},
+	{"R-ROWBUF", (*Model).ruleROWBUF, "row iterators return each row in storage allocated by that call"},
 }
 
 type PropDef struct {
